@@ -54,6 +54,7 @@ type verifOp struct {
 	Node  int    `json:"node"`
 	Arg   int    `json:"arg"`
 	Fresh bool   `json:"fresh"` // pointer kinds: pass a newly allocated, equal value instead of the first one
+	Quiet bool   `json:"quiet"` // no lookup between this op and the next one (its row stays empty)
 }
 
 type verifHashCase struct {
@@ -317,6 +318,9 @@ func TestVerifDriver(t *testing.T) {
 			// every key is looked up BEFORE the membership change (in index order, so that the key looked up
 			// last before the change is the one looked up first after it) ...
 			for i, k := range keys {
+				if prev == nil {
+					break // the previous op was quiet: membership ops back to back
+				}
 				if lookup(k) != prev[i] {
 					unstable = append(unstable, []int{step - 1, i})
 				}
@@ -334,6 +338,11 @@ func TestVerifDriver(t *testing.T) {
 				}
 			}))
 			// ... and AFTER it, in reverse order, each key several times in a row (maps: 200 times)
+			if op.Quiet {
+				results = append(results, []int{})
+				prev = nil
+				continue
+			}
 			row := make([]int, len(keys))
 			for i := len(keys) - 1; i >= 0; i-- {
 				row[i] = lookup(keys[i])
